@@ -381,16 +381,23 @@ WriteReturn(m0, e) ==
             ELSE mA
       \* --- C01 (or C06/C07 by context): state and entries equal the reference
       mC == IF mB.tainted THEN mB ELSE CheckView(mB, e, o, IF mB.rejSeen THEN "C06" ELSE "C01")
-      \* --- C11: returned segment, rotation rule
+      \* --- C11: returned segment = where the record is; chunk names = global offsets; rotation rule
       lastp == IF placed = <<>> THEN [off |-> 0, sz |-> 0] ELSE placed[Len(placed)]
+      newcks == {m.newck[k] : k \in 1..Len(m.newck)}
+      recEnd == lastp.off + lastp.sz
+      headSz == IF recEnd \in newcks THEN StateSize(RefSt(ref1), mA.ulen) ELSE 0
       mD == IF mC.tainted \/ rc # "ok" \/ nacc1 = 0 THEN mC
-            ELSE IF op = "append" /\ (e.seg[1] # lastp.off \/ e.seg[2] # lastp.sz \/ jend1 # lastp.off + lastp.sz)
+            ELSE IF op = "append" /\ jend1 # recEnd + headSz
                  THEN [Note(mC, "size_model_mismatch", e) EXCEPT !.sizeok = FALSE]
-            ELSE IF op # "append" /\ e.seg[1] + e.seg[2] # jend1
-                      /\ ~(Len(m.newck) > 0)     \* a rotation puts a head snapshot after the record
-                 THEN ViolKeep(mC, "C11", "segment_not_at_journal_end", e, [seg |-> e.seg, end |-> jend1])
-            ELSE IF e.seg[1] < m.jend
-                 THEN ViolKeep(mC, "C11", "segment_overlaps_journal", e, [seg |-> e.seg, jend |-> m.jend])
+            ELSE IF e.seg # <<lastp.off, lastp.sz>> \/ e.seg[1] < m.jend
+                 THEN ViolKeep(mC, "C11", "segment_not_where_record_is", e,
+                               [seg |-> e.seg, record_at |-> <<lastp.off, lastp.sz>>, jend |-> m.jend])
+            ELSE IF op # "append" /\ e.seg[1] # m.jend
+                 THEN ViolKeep(mC, "C11", "segment_not_at_journal_end", e, [seg |-> e.seg, jend |-> m.jend])
+            ELSE IF Len(m.newck) > 0 /\ ~(recEnd \in newcks)
+                 THEN ViolKeep(mC, "C11", "chunk_name_is_not_its_global_offset", e, [newck |-> m.newck, end |-> recEnd])
+            ELSE IF Len(m.newck) = 0 /\ jend1 # recEnd
+                 THEN ViolKeep(mC, "C11", "journal_end_not_after_record", e, [seg |-> e.seg, end |-> jend1])
             ELSE IF ~RotationOk(mC, o)
                  THEN ViolKeep(mC, "C11", "full_chunk_not_closed", e, [open |-> openc, cfg |-> mC.cfg])
             ELSE mC
@@ -441,9 +448,19 @@ OpenReturn(m0, e) ==
                                     !.fl = <<>>, !.rejSeen = FALSE]
                IN m2
   ELSE
-  \* clean (re)open: C02 — same state, same entries
+  \* clean (re)open: C02 — same state, same entries, provided every write was flushed and acknowledged.
+  \* Otherwise the drop discarded unflushed writes: no property speaks about that; resynchronise on the
+  \* surviving prefix if there is one, else stop judging this run.
   LET m2 == [m1 EXCEPT !.jend = openc[4]]
-      m3 == IF first THEN m2 ELSE CheckView(m2, e, o, IF m2.rejSeen THEN "C06" ELSE "C02")
+      ks == {k \in m.acked..m.nacc : k >= m.vbase /\ RefView(m.views[k - m.vbase + 1]) = ObsView(o)}
+      m3 == IF first THEN m2
+            ELSE IF m.dropAcked THEN CheckView(m2, e, o, IF m2.rejSeen THEN "C06" ELSE "C02")
+            ELSE IF o.esr = "ok" /\ ks # {}
+                 THEN LET k == SetMax(ks) IN
+                      [Note(m2, "unflushed_drop", e) EXCEPT !.ref = m.views[k - m.vbase + 1], !.nacc = k,
+                             !.views = SubSeq(@, 1, k - m.vbase + 1), !.jr = <<>>, !.loc = <<>>, !.sizeok = FALSE,
+                             !.obsolete = <<>>, !.oblig = <<>>]
+                 ELSE [Note(m2, "unflushed_drop_unexplained", e) EXCEPT !.tainted = TRUE]
       \* a head snapshot created by this open carries the recovered state
       m4 == [m3 EXCEPT !.heads = @ \o [k \in 1..Len(m.newck) |-> [ck |-> m.newck[k], st |-> RefSt(m.ref)]],
                        !.newck = <<>>]
@@ -556,7 +573,8 @@ IdleStep(m0, e) ==
             THEN ViolKeep(m1, "C08", "obsolete_chunk_not_removed", e, [cks |-> still, dir |-> o.dir])
             ELSE m1
       \* C11: reported on-disk size = oldest retained chunk .. journal end
-      m3 == IF ~m2.faulted /\ listed # {} /\ o.ods # openc[4] - SetMin(listed)
+      \* (the property speaks of the state after flush and worker idle: nothing is scheduled for removal)
+      m3 == IF ~m2.faulted /\ flushedN = m2.nacc /\ listed # {} /\ o.ods # openc[4] - SetMin(listed)
             THEN ViolKeep(m2, "C11", "on_disk_size_wrong", e, [ods |-> o.ods, end |-> openc[4], dir |-> o.dir])
             ELSE m2
       \* C08: the files that remain form a gap-free suffix (names abut by size)
